@@ -123,6 +123,36 @@ def extract(facts, tname):
     return m
 
 
+def fold_sat(expr, nonneg):
+    """`a.saturating_sub(b)` (translated as Piecewise((a - b, b < a), (0, True))) is `a - b` wherever `a - b >= 0` is a known fact:
+    `nonneg` lists expressions known to be non-negative at this point (a floor-division remainder, the condition of the enclosing branch)."""
+    def rw(pw):
+        if len(pw.args) == 2 and pw.args[1][0] == 0 and pw.args[1][1] == sp.true:
+            e1, c = pw.args[0]
+            if isinstance(c, (sp.StrictLessThan, sp.StrictGreaterThan)):
+                big, small = (c.gts, c.lts)
+                if sp.simplify(e1 - (big - small)) == 0 and any(sp.simplify(e1 - f) == 0 for f in nonneg):
+                    return e1
+        return pw
+    try:
+        return expr.replace(lambda x: isinstance(x, sp.Piecewise), rw)
+    except Exception:
+        return expr
+
+
+def cond_nonneg(alg, cond, subs=()):
+    """the expression that the branch condition `a >= b` / `a > b` (IR) states to be non-negative, or None"""
+    if not isinstance(cond, dict) or cond.get("k") != "bin" or cond.get("op") not in (">=", ">", "<=", "<"):
+        return None
+    try:
+        l_, r_ = alg.conv(cond["l"]), alg.conv(cond["r"])
+    except Exception:
+        return None
+    for a_, b_ in subs:
+        l_, r_ = l_.subs(a_, b_), r_.subs(a_, b_)
+    return (l_ - r_) if cond["op"] in (">=", ">") else (r_ - l_)
+
+
 def ret_tuple(m):
     r = m["ret"]
     if r is not None and r.get("k") == "call" and is_path(r["f"], "Ok") and r["args"] and r["args"][0].get("k") == "tuple":
@@ -228,6 +258,10 @@ def rule_conserve(rep, R):
         w = parks[0]
         lo = alg.conv(w["range"]["lo"]).subs(cs, C)
         hi = alg.conv(w["range"]["hi"]).subs(cs, C)
+        # chunks = floor(x / f) gives x - chunks*f >= 0: a remainder written with saturating_sub is the plain difference
+        from norm import idiv_f as _idiv
+        nonneg = [cs.args[0] - C * cs.args[1]] if getattr(cs, "func", None) == _idiv and len(cs.args) == 2 else []
+        hi = fold_sat(hi, nonneg)
         ok = sp.simplify(lo - C * FI) == 0 and sp.simplify(hi - (S + CH)) == 0 and nbit(w["dest"]) == "i:0"
         detail = "remainder parked from [%s, %s) to %s" % (lo, hi, show(w["dest"]))
     rep.ob(R, "FftFixedIn/park", ok, detail + " (must be [chunks·fft_size_in, saved+chunk_size_in) -> 0)", loc(fn))
@@ -292,6 +326,9 @@ def rule_conserve(rep, R):
         # the park happens after saved_frames was updated: range is [chunk_out, chunk_out + saved')
         lo = alg.conv(w["range"]["lo"])
         hi = alg.conv(w["range"]["hi"]).subs(idiv_f(FN, FI), U)
+        pl, _ = parks[0]
+        nn = cond_nonneg(alg, pl.get("cond"), [(idiv_f(FN, FI), U)])
+        hi = fold_sat(hi, [nn] if nn is not None else [])
         park_ok = sp.simplify(lo - CO) == 0 and sp.simplify(hi - (CO + (S + FO * U - CO))) == 0 and nbit(w["dest"]) == "i:0"
         ok = dst_ok and src_ok and park_ok
         detail = "deliver %s <- %s ; park [%s, %s) -> %s" % (show(d)[:50], show(s)[:50], lo, hi, show(w["dest"]))
